@@ -50,3 +50,21 @@ def f64_bits(x):
 
 def bits_f64(b):
     return struct.unpack('<d', struct.pack('<Q', b))[0]
+
+
+def near_words():
+    """words that LOOK like a keyword or a built-in name but are not spelled like one (other normalisation form, a joiner
+    inside, a mark appended, one character dropped or doubled, another script's look-alike): under the documented grammar
+    each is an ordinary identifier (or, with a character no identifier may contain, a diagnosed piece), never the keyword"""
+    import unicodedata
+    out = []
+    for w in list(KW.values()) + list(NAT.values()):
+        vs = {unicodedata.normalize('NFC', w), unicodedata.normalize('NFD', w), unicodedata.normalize('NFKC', w),
+              w[:1] + '\u200d' + w[1:], w[:-1] + '\u200c' + w[-1:], w + '\u09bc', w + '\u0981', w[:-1], w[1:], w + w[-1],
+              w.replace('_', ''), w.replace('_', '__'), w.upper(), w.lower(), w.swapcase(), w.capitalize()}
+        for x, y in [('\u09df', '\u09af\u09bc'), ('\u09dc', '\u09a1\u09bc'), ('\u09dd', '\u09a2\u09bc'), ('\u09cb', '\u09c7\u09be'),
+                     ('\u09cc', '\u09c7\u09d7')]:
+            vs.add(w.replace(x, y)); vs.add(w.replace(y, x))
+        vs.discard(w)
+        out += sorted(v for v in vs if v and v not in KW.values() and v not in NAT.values())
+    return sorted(set(out))
